@@ -1033,22 +1033,24 @@ LEVEL_TEXT = ('Machine-checked Coq theorems about an executable model of read_ta
               '(1) the orientation decision yields [min(sstart,send)-1, max(sstart,send)), strand - iff subject and query run in '
               'opposite directions, ValueError iff an explicit sstrand contradicts, N/A -> ".", rows without direction take the sstrand '
               'column (plus/minus mapped); (2) the regenerated column tables are consistent (finite, re-checked against /repo on every run); '
-              '(3) a tokenised row gives one typed format-metadata entry per column and the common metadata seqid/name/evalue/score; '
-              'int() of a decimal rendering returns the number; (4) ON TEXT: a BLAST outfmt 6/10 or MMseqs2 fmtmode 0 file (defaults or '
-              'outfmt=), a BLAST outfmt 7 file (# Fields: line), an MMseqs2 fmtmode 4 file (name row) and an Infernal tblout file (ruler, '
-              'column-count map, whitespace split with maxsplit keeping the description) read to exactly the row-level results, header '
-              'lines are ignored when outfmt= is given, CRLF/universal newlines do not matter; (5) read(render H) has the specified '
-              'locations, strands and common metadata for every abstract hit list H in BLAST 6/7/10, MMseqs2 0/4 and Infernal 1 default '
-              'renderings, hence equal across dialects. The model is tied to sugar.read_fts by differential testing on rendered hit '
-              'lists and a mutation stream; all statements of the modelled functions are executed in the quick tier.')
+              '(3) a tokenised row gives one typed format-metadata entry per column, the common metadata seqid/name/evalue/score and the '
+              'type chosen by ftype; int() of a decimal rendering returns the number; (4) ON TEXT, file -> rows: BLAST outfmt 6/10 and '
+              'MMseqs2 fmtmode 0 (defaults or outfmt=, separator or sep=None), BLAST outfmt 7 with one or several "# Fields:" blocks, '
+              'MMseqs2 fmtmode 4 (name row), Infernal tblout (ruler, column-count map, whitespace split with maxsplit keeping the '
+              'description); header lines are ignored and comment/blank lines may stand anywhere when outfmt= is given; CRLF and '
+              'universal newlines do not matter; (5) read(render H) has the specified locations, strands and common metadata for every '
+              'abstract hit list H under ANY accepted column selection (distinct table columns containing the eight required ones) given '
+              'by outfmt=, by a "# Fields:" line or by the MMseqs2 name row, and for all four Infernal tables (fmt 1, 2, 2old, 3); hence '
+              'equal across all eight renderings. The model is tied to sugar.read_fts by differential testing on rendered hit lists, a '
+              'mutation stream and multi-read histories; all statements of the modelled functions are executed in the quick tier.')
 LEVEL_NOTE = ('Trusted: Coq kernel/vm_compute, tools/gens/c11.py (tables), the correspondence harness, CPython int()/float()/str methods '
               '(the Gallina int()/float() are compared with CPython on every case; float() is not characterised by a theorem, float values '
               'are compared as exact decimal literals, DESIGN 5.3). Modelled rather than verified: core.py read_tabular and '
-              '_headers_from_fmtstrings, the three reader wrappers, the comments= option. Proved on text: single-block files with LF or '
-              'CRLF line ends; tested only: several "# Fields:" blocks in one BLAST 7 file, sep=None for BLAST/MMseqs2, the end-to-end '
-              'read(render H) statement for Infernal fmt 2/2old/3 and for user-chosen column subsets (their file-to-rows and rows-to-hits '
-              'halves are proved separately: C11_read_infernal / C11_read_blast7 / C11_read_mmseqs4 / C11_read_outfmt_file and '
-              'C11_rows_features_carry, C11_text_dialect_independent), the sniffers is_fts_* (property C03). '
+              '_headers_from_fmtstrings, the three reader wrappers, the comments= option. Tested only (no theorem): agreement of the '
+              'Gallina float() with CPython; the comments= list; MMseqs2 fmtmode 4 and BLAST outfmt 7 header discovery combined with '
+              'sep=None; several "# Fields:" blocks whose rows are read with sep=None; a last line without terminator; the sniffers '
+              'is_fts_* (property C03). In the end-to-end theorems a hit under a selection with a strand column must have a direction '
+              '(the directionless case is covered by C11_orient_no_direction on rows). '
               'Statement coverage of the modelled functions in the quick tier: 86/86, no unreachable lines. '
               'State independence (no caches or shared objects between reads, rows or dialects) is not a theorem about sugar: the model '
               'is pure by construction and the history stream compares every step of multi-read histories with it. '
